@@ -6820,6 +6820,7 @@ CK_RV SoftHSM::UnwrapKeySym
 	        case CKM_DES3_CBC_PAD:
 			algo = SymAlgo::DES3;
 			blocksize = 8;
+			bb = 7;
 		        break;
 		  
 		default:
